@@ -100,19 +100,21 @@ def area_laws(case, outs):
     az = base.get("az", [])
     n = len(pts)
     if len(az) == 2 and all(len(t) == n for t in az):
-        for i in range(n):
-            want = vertex_angle(pts[i], pts[(i + 1) % n], pts[(i + 2) % n])
-            for ta, tb in ((az[0], az[1]),):
+        want = [vertex_angle(pts[i], pts[(i + 1) % n], pts[(i + 2) % n]) for i in range(n)]
+        worst = []
+        for ta, tb in ((az[0], az[1]), (az[1], az[0])):       # the order in which the code evaluates the two tables is not fixed
+            w = (0.0, 0, 0.0)
+            for i in range(n):
                 got = (ta[i] - tb[i]) % G.TWO_PI
-                d = abs(got - want)
+                d = abs(got - want[i])
                 d = min(d, G.TWO_PI - d)
-                # at a pole vertex the tangent directions are still well defined
-                if d > ANGLE_TOL:
-                    fails.append(("C17.area.vertex_angle." + cls, "arctan2 difference at vertex %d is %.12g, the interior angle is %.12g (%s)"
-                                  % ((i + 1) % n, got, want, case["v"])))
-                    break
-            if fails:
-                break
+                if not d <= w[0]:
+                    w = (d, i, got)
+            worst.append(w)
+        d, i, got = min(worst)
+        if not d <= ANGLE_TOL:
+            fails.append(("C17.area.vertex_angle." + cls, "arctan2 difference at vertex %d is %.12g, the interior angle is %.12g (%s)"
+                          % ((i + 1) % n, got, want[i], case["v"])))
     ar = by["radius"][0]["area"] if r != 1.0 else a1
     if abs(ar - a1 * r * r) > tol(r):
         fails.append(("C17.area.radius", "area with radius %r is %.15g, with radius 1 it is %.15g (x r^2 = %.15g)" % (r, ar, a1, a1 * r * r)))
